@@ -31,7 +31,13 @@ def cat_content(stdout):
     hdr = pc["header"]
     head = b"\n".join(hdr)
     m = re.match(rb"^ ?(.*?) *\(([0-9A-Fa-f]{2})\)", hdr[0]) if hdr else None
-    title = m.group(1).strip() if m else (hdr[0].strip() if hdr else None)
+    if m:
+        title = m.group(1).strip()
+    elif hdr:
+        # no cycle number is shown (HDFS-flagged catalogues): the title is what precedes the density word
+        title = re.sub(rb"(MFM|FM|Single density|Double density)\s*$", b"", hdr[0]).strip()
+    else:
+        title = None
     cycle = m.group(2).lower() if m else None
     opt = re.search(rb"Option (\d) \((\w+)\)", head)
     drv = re.search(rb"Drive (\d+[A-H]?)", head)
@@ -92,6 +98,8 @@ class C18(CheckBase):
         if ic["ext"] in ("hfe", "mfm"):
             v.nontrivial = True
             v.classes.append("flux")
+            if ic.get("v3ops"):
+                v.classes.append("flux-hfe3-opcodes")
         if hostile:
             v.nontrivial = True
             v.classes.append("hostile")
